@@ -200,15 +200,16 @@ class Case:
     def ev_apply(self, soft=None, hard=None, lost=None, slot=None):
         p = self.pool
         wait = p.putlocks if slot is None else slot
-        if wait and p._putlock is not None and p._putlock._value == 0:
-            return 'Blocked'
         if p._state != bp.RUN:
+            # a pool that is not running must refuse at once, whatever the slots: call it for real
             r = p.apply_async(abs, (1,), soft_timeout=soft, timeout=hard, lost_worker_timeout=lost, waitforslot=slot)
             if r is not None:
                 self.new_cb()
                 self.jobs.append(r)
                 return 'Accepted'
             return 'Refused'
+        if wait and p._putlock is not None and p._putlock._value == 0:
+            return 'Blocked'       # the real call would wait for a slot
         d = self.new_cb()
         r = p.apply_async(
             abs, (1,), soft_timeout=soft, timeout=hard, lost_worker_timeout=lost, waitforslot=slot,
@@ -502,7 +503,7 @@ class Case:
         maximal = False
         while True:
             en = []
-            if todo > 0 and p._state == bp.RUN and not (p.putlocks and p._putlock is not None and p._putlock._value == 0):
+            if todo > 0 and (p._state != bp.RUN or not (p.putlocks and p._putlock is not None and p._putlock._value == 0)):
                 en.append(['submit'])
             if taskq:
                 en.append(['put'])
@@ -513,18 +514,22 @@ class Case:
                     en.append(['finish', i])
             if outq:
                 en.append(['recv'])
-            if not en:
-                maximal = True
-                break
-            if limit is not None and len(sched) >= limit:
+            work_left = bool(en)           # a step other than close() is enabled
+            if p._state == bp.RUN and spec.get('may_close') and (todo == 0 or rng.random() < spec.get('close_early', 0.05)):
+                en.append(['close'])
+            if not en or (limit is not None and len(sched) >= limit):
+                maximal = not work_left    # nothing but close() can move
                 break
             st = rng.choice(en)
             sched.append(st)
             ev = None
             if st[0] == 'submit':
                 todo -= 1
-                taskq.append(len(self.jobs))
+                if p._state == bp.RUN:
+                    taskq.append(len(self.jobs))
                 ev = ['apply', None, None, None, None]
+            elif st[0] == 'close':
+                ev = ['close']
             elif st[0] == 'put':
                 inq.append(taskq.pop(0))
             elif st[0] == 'take':
